@@ -434,6 +434,18 @@ example : flagWord [.CLOEXEC, .RDONLY] (keepCustom customMasks (0o400000 + 1)) %
 example : openFlags true true false true false = some [.CLOEXEC, .RDWR, .CREATE] := rfl
 example : openFlags true false true false false = none := rfl
 
+/-! ## splice: the model is driver independent exactly when the polling driver waits for pollable ends only -/
+
+/-- with `Splice::pre_submit` waiting only for the ends epoll can poll (the proposed repair, recognised by the
+extractor as `pollableEnds`) the polling driver answers every splice as io_uring does; with `bothEnds` (the
+code today, finding F080) this holds for pipe-to-pipe transfers only -/
+theorem splice_driver_independent (wait : Gen.OpTable.SpliceWait) (s : St) (src dst : End) (len : Nat) (oi oo : Option Nat)
+    (h : wait = .pollableEnds ∨ (∃ a b, src = .pipe a ∧ dst = .pipe b)) :
+    St.splice .poll wait s src dst len oi oo = St.splice .iour wait s src dst len oi oo := by
+  rcases h with rfl | ⟨a, b, rfl, rfl⟩
+  · simp [St.splice]
+  · simp [St.splice, St.spliceCore]
+
 /-! ## (d) directory utilities: the decision logic of `DirBuilder::create_dir_all` -/
 
 section DirUtil
